@@ -35,6 +35,10 @@ Creds == [
   validc2                  |-> [issued |-> TRUE,  cn |-> "c2"],
   validnobody              |-> [issued |-> TRUE,  cn |-> "nobody"],
   validsigner2             |-> [issued |-> TRUE,  cn |-> "signer-2"],
+  \* the identity is the subject's COMMON NAME as written: alternative names, organisation and unit name nobody, and "C1" is not "c1"
+  validc2sanc1             |-> [issued |-> TRUE,  cn |-> "c2"],
+  validnobodysansigner2    |-> [issued |-> TRUE,  cn |-> "nobody"],
+  validupperc1             |-> [issued |-> TRUE,  cn |-> "C1"],
   validc2plusselfsignedc1  |-> [issued |-> TRUE,  cn |-> "c2"],
   validc2plusothercac1     |-> [issued |-> TRUE,  cn |-> "c2"],
   validc1plusselfsignedsigner2 |-> [issued |-> TRUE, cn |-> "c1"]
